@@ -28,7 +28,7 @@ func init() { core.Register(c18{}) }
 
 func (c18) ID() string { return "C18" }
 func (c18) Rule() string {
-	return "plans: 1-2 signing tasks (Sign, SignBlob) sharing one scripted byzantine signing plugin, six key specs, JWS / COSE, raw-signature or envelope capability; per request an answer fault: envelope over a different digest / size / media type, dropped or altered annotation, added annotation (legal), extra member at payload or descriptor level, alternative spellings of the payload key (TargetArtifact, duplicates in both orders, null target), other envelope format, mismatching type string, corrupted signature, wrong payload type, replay of an earlier answer (stale, or cross-delivered between the two tasks by the scheduler), key-id mismatch in describe-key / generate-signature, undecodable or mismatching key spec, chain of another key, empty or garbage chain, corrupted raw signature. In half of the runs one PluginSigner per signing host serves all its calls; plugin answers may omit members (digest, size, media type, annotations, the whole target, everything). non-trivial: at least one faulty answer; distinct: hash of (requests, faults, verdicts, interleaving)"
+	return "plans: 1-2 signing tasks (Sign, SignBlob) sharing one scripted byzantine signing plugin (45 kinds of faulty envelope answers, among them payloads followed by more bytes), six key specs, JWS / COSE, raw-signature or envelope capability; per request an answer fault: envelope over a different digest / size / media type, dropped or altered annotation, added annotation (legal), extra member at payload or descriptor level, alternative spellings of the payload key (TargetArtifact, duplicates in both orders, null target), other envelope format, mismatching type string, corrupted signature, wrong payload type, replay of an earlier answer (stale, or cross-delivered between the two tasks by the scheduler), key-id mismatch in describe-key / generate-signature, undecodable or mismatching key spec, chain of another key, empty or garbage chain, corrupted raw signature. In half of the runs one PluginSigner per signing host serves all its calls; plugin answers may omit members (digest, size, media type, annotations, the whole target, everything). non-trivial: at least one faulty answer; distinct: hash of (requests, faults, verdicts, interleaving)"
 }
 func (c18) Components() map[string]string {
 	return map[string]string{
@@ -43,7 +43,8 @@ var c18EnvFaults = []string{"none", "diff-digest", "diff-size", "diff-mediatype"
 	"spelling-TargetArtifact", "dup-good-then-bad", "dup-bad-then-good", "null-then-capital", "null-target", "other-format", "type-string-mismatch", "corrupt", "wrong-payload-type", "replay", "garbage", "empty", "corrupt-mid", "corrupt-payload", "rename-annotation", "drop-one-add-two", "recase-annotation-key",
 	"omit-digest", "omit-size", "omit-mediatype", "omit-annotations", "empty-target", "empty-payload",
 	"payload-type-recased", "payload-type-with-parameter", "payload-type-trailing-space", "payload-type-v2",
-	"mistyped-urls", "mistyped-data", "mistyped-platform", "second-annotations-nonstring", "target-then-array", "target-then-string"}
+	"mistyped-urls", "mistyped-data", "mistyped-platform", "second-annotations-nonstring", "target-then-array", "target-then-string",
+	"trailing-second-payload", "trailing-garbage", "trailing-object", "trailing-bracket"}
 var c18RawFaults = []string{"none", "describe-keyid", "describe-keyspec-garbage", "describe-keyspec-mismatch", "sign-keyid", "chain-other-key", "chain-empty", "chain-garbage", "sig-corrupt", "sig-other-payload", "sig-empty", "chain-reordered"}
 
 // op: I = [task, blob(0/1), key idx, format, envelope capability(0/1), fault idx, nannots]
@@ -64,7 +65,7 @@ func (c18) Gen(r *rand.Rand, tier string, idx int) *core.Plan {
 		for i, n := 0, 1+r.IntN(3); i < n; i++ {
 			fault := int64(0)
 			if r.IntN(4) != 0 {
-				fault = int64(1 + r.IntN(41))
+				fault = int64(1 + r.IntN(45))
 			}
 			p.Ops = append(p.Ops, core.Op{Task: t, Kind: "sign", I: []int64{int64(r.IntN(2)), int64(r.IntN(2)), fault, int64(r.IntN(3)), int64(r.IntN(1000))}})
 		}
@@ -250,6 +251,15 @@ func (l c18) Exec(env *core.Env) *core.Result {
 			custom = []byte(`{"targetArtifact":` + gj + `,"targetArtifact":[]}`)
 		case "target-then-string":
 			custom = []byte(`{"targetArtifact":` + gj + `,"targetArtifact":"sha256:abc"}`)
+		// more bytes after the first JSON value: the payload is not the JSON document that was requested
+		case "trailing-second-payload":
+			custom = []byte(`{"targetArtifact":` + gj + `}{"targetArtifact":` + bj + `}`)
+		case "trailing-garbage":
+			custom = []byte(`{"targetArtifact":` + gj + `} and something else`)
+		case "trailing-object":
+			custom = []byte(`{"targetArtifact":` + gj + "}\n" + `{"extra":"member"}`)
+		case "trailing-bracket":
+			custom = []byte(`{"targetArtifact":` + gj + `}]`)
 		case "dup-good-then-bad":
 			custom = []byte(`{"targetArtifact":` + gj + `,"TargetArtifact":` + bj + `}`)
 		case "dup-bad-then-good":
